@@ -3,9 +3,10 @@
    Model: Model/Store.v (state = tree with fiber identities + rank lists; operations =
    getPayloadRef with write-through, getPayload, append, __setitem__, clear, updateCoords,
    updatePayloads, iterRangeShapeRef, getPosition(Ref), start_pos variants, getPayload with a
-   caller default, and the fiber-valued mutators: append(c, fiber) / __setitem__(pos, fiber) on
-   interior fibers, extend(fiber) and fiber <<= fiber at any rank, the argument fiber being a
-   tree of the matching depth with strictly increasing coordinates).
+   caller default, and the fiber-valued mutators: append(c, fiber) / __setitem__(pos, fiber) /
+   __setitem__(pos, CoordPayload(c, fiber)) on interior fibers, extend(fiber) and
+   fiber <<= fiber at any rank, the argument fiber being a tree of the matching depth with
+   strictly increasing coordinates).
    NOT in the modelled operation set (checked by other properties' models or not at all):
    in-place fiber arithmetic, populate loops (C05). *)
 From Coq Require Import ZArith List Bool Sorted.
@@ -42,7 +43,9 @@ Theorem C01_wf_tree_spec : forall t n, wf_tree n t = true <-> WFt n t.
 Proof. exact wf_tree_spec. Qed.
 Print Assumptions C01_wf_tree_spec.
 
-(* an operation refused with an error leaves the state exactly as it was *)
+(* an operation refused with an error leaves the state exactly as it was (the whole state:
+   tree, rank lists, owners, counter) - in particular f[pos] = CoordPayload(c, fiber) refused
+   for its coordinate has not released the sub-fiber it would have replaced *)
 Theorem C01_reject_atomic : forall s o,
   snd (step s o) = Rejected \/ snd (step s o) = BadAddress -> fst (step s o) = s.
 Proof. exact step_rejected_unchanged. Qed.
@@ -68,3 +71,24 @@ Example C01_nonvacuous :
   /\ snd (step (run (init 2 0 (h_tree c)) [OGetRef [2; 7] (WAdd 3); OSetItem [1] (-1) (Some 2) (Some 9)])
                (OSetItem [1] 1 (Some 0) None)) = Rejected.
 Proof. vm_compute. repeat split; discriminate. Qed.
+
+(* non-vacuity for f[pos] = CoordPayload(c, fiber) on an interior fiber (OSetItemCF): refused
+   for a coordinate that collides with the right neighbour (nothing changes), accepted with a
+   coordinate that fits (coordinate and sub-fiber replaced), refused for a coordinate not above
+   the left neighbour, refused with IndexError *)
+Example C01_setitem_coord_fiber_nonvacuous :
+  let c := {| h_n := 3; h_d := 0;
+              h_tree := Node [(1, Node [(0, Node [(2, Leaf 5)]); (6, Node [])]); (4, Node [])];
+              h_ops := [OSetItemCF [] 0 4 (Node [(3, Node [(1, Leaf 1)])]);
+                        OSetItemCF [] 0 2 (Node [(3, Node [(1, Leaf 1)])]);
+                        OSetItemCF [] (-1) 2 (Node []);
+                        OSetItemCF [] 2 9 (Node [])] |} in
+  let s0 := init (h_n c) (h_d c) (h_tree c) in
+  wf_case c = true
+  /\ map (fun k => snd (step (run s0 (firstn k (h_ops c))) (nth k (h_ops c) (OGet []))))
+         [0; 1; 2; 3]%nat
+     = [Rejected; Done RNone; Rejected; Rejected]
+  /\ run s0 (firstn 1 (h_ops c)) = s0
+  /\ erase (s_root (run s0 (h_ops c))) = Node [(2, Node [(3, Node [(1, Leaf 1)])]); (4, Node [])]
+  /\ holds c01_checker c (model c01_checker c) = true.
+Proof. vm_compute. repeat split. Qed.
